@@ -287,19 +287,22 @@ def expoInterval (order : Nat) (alpha : List α) (cr : List (List α)) (p0 : Lis
 def powerInterval (order : Nat) (alpha : List α) (cr : List (List α)) (p0 : List α) (zs : List α) : List (List α) :=
   ((expoInterval order alpha cr p0 zs).zip p0).map (fun x => x.1.map (fun e => x.2 * Transc.exp e))
 
-/-- split the grid at the first point that carries a lumped loss (≠ 1) after the start: returns the interval
-(start … that point inclusive) and the remaining grid beginning at that point -/
+/-- walk to the first point that carries a lumped loss (≠ 1): returns the points up to and including it, and the
+remaining grid beginning at that point (`([…all…], [])` when there is none) -/
+def splitGo : List (α × α) → List (α × α) × List (α × α)
+  | [] => ([], [])
+  | h :: t =>
+    if h.2 < N(1) ∨ N(1) < h.2 then ([h], h :: t)
+    else
+      let r := splitGo t
+      (h :: r.1, r.2)
+
+/-- the next interval of the perturbative loop: from the first grid point to the next lumped loss (inclusive) or to the
+end; and the grid that remains, beginning at that lumped loss -/
 def takeInterval : List (α × α) → List (α × α) × List (α × α)
   | [] => ([], [])
   | g :: rest =>
-    let rec go : List (α × α) → List (α × α) × List (α × α)
-      | [] => ([], [])
-      | h :: t =>
-        if h.2 < N(1) ∨ N(1) < h.2 then ([h], h :: t)
-        else
-          let r := go t
-          (h :: r.1, r.2)
-    let r := go rest
+    let r := splitGo rest
     (g :: r.1, r.2)
 
 def lastD (d : α) : List α → α
@@ -311,14 +314,15 @@ def lastD (d : α) : List α → α
 def appendTail (acc m : List (List α)) : List (List α) := (acc.zip m).map (fun x => x.1 ++ x.2.drop 1)
 
 /-- the loop over the intervals between lumped losses; `ll` is the lumped loss applied at the start of the
-current interval (`llumped_losses`), `fuel` bounds the number of intervals -/
+current interval (`llumped_losses`), `fuel` bounds the number of intervals.  Returns the power profile and the powers
+at the end of the last interval (`power_in` after the loop = last column of the profile) -/
 def perturbGo (order : Nat) (alpha : List α) (cr : List (List α)) :
-    Nat → List α → α → List (α × α) → List (List α) → List (List α)
-  | 0, _, _, _, acc => acc
+    Nat → List α → α → List (α × α) → List (List α) → List (List α) × List α
+  | 0, pin, _, _, acc => (acc, pin)
   | fuel + 1, pin, ll, grid, acc =>
     match grid with
-    | [] => acc
-    | [_] => acc
+    | [] => (acc, pin)
+    | [_] => (acc, pin)
     | g0 :: _ =>
       let iv := takeInterval grid
       let zs := iv.1.map (fun g => g.1 - g0.1)
@@ -334,7 +338,11 @@ def perturbGo (order : Nat) (alpha : List α) (cr : List (List α)) :
 /-- `calculate_unidirectional_stimulated_raman_scattering`, method `perturbative`: rows = frequencies,
 columns = grid points -/
 def perturbative (order : Nat) (alpha : List α) (cr : List (List α)) (pin : List α) (grid : List (α × α)) : List (List α) :=
-  perturbGo order alpha cr (grid.length + 1) pin N(1) grid (pin.map (fun x => [x]))
+  (perturbGo order alpha cr (grid.length + 1) pin N(1) grid (pin.map (fun x => [x]))).1
+
+/-- the powers at the fibre end (last column of `perturbative`) -/
+def perturbativeEnd (order : Nat) (alpha : List α) (cr : List (List α)) (pin : List α) (grid : List (α × α)) : List α :=
+  (perturbGo order alpha cr (grid.length + 1) pin N(1) grid (pin.map (fun x => [x]))).2
 
 /-- transpose of the Euler columns: rows = frequencies -/
 def column (m : List (List α)) (k : Nat) : List α := m.filterMap (fun r => r[k]?)
